@@ -62,7 +62,7 @@ CHECKS = {
     ),
     "C10": (
         "model_checking",
-        "Parametric instances whose objective and constraints range over the full representation alphabet (decision ids {1,2}, parameter ids {10,11}; declared sets {10,11} and {10,11,12} so a declared parameter may be unused or occur only in a removed constraint; parameter 11 carries no name or other metadata, parameter 10 all of it; hints are one-hot only or SOS1 only) x parameter assignments {complete, complete+unrelated extra, with a zero value, each single declared parameter missing (alone and with an unrelated extra id), empty, unrelated id only} through with_parameters. Oracle: exact partial evaluation of objective and active constraints; decision variables, sense, removed constraints, hints, dependencies unchanged; supplied values recorded; Err iff a declared parameter is missing; evaluate(x) == parametric functions at (x,p). Instance->ParametricInstance->with_parameters({}) round trip compared as problems (also for instances that record the parameters of an earlier instantiation).",
+        "Parametric instances whose objective and constraints range over the full representation alphabet (decision ids {1,2}, parameter ids {10,11}; declared sets {10,11} and {10,11,12} so a declared parameter may be unused or occur only in a removed constraint; parameter 11 carries no name or other metadata, parameter 10 all of it; hints are one-hot only or SOS1 only; a constraint without function before or after the one carrying parameters; removed-constraint metadata as the penalty method leaves it) x parameter assignments {complete, complete+unrelated extra, with a zero value, each single declared parameter missing (alone and with an unrelated extra id), empty, unrelated id only} through with_parameters. Oracle: exact partial evaluation of objective and active constraints; decision variables, sense, removed constraints, hints, dependencies unchanged; supplied values recorded; Err iff a declared parameter is missing; evaluate(x) == parametric functions at (x,p). Instance->ParametricInstance->with_parameters({}) round trip compared as problems (also for instances that record the parameters of an earlier instantiation).",
         "Trusted: Poly.partial. Previous `parameters` of an Instance are dropped by the conversion by documented design and are not compared.",
         "bounded exhaustive enumeration of (parametric instance, assignment) on the real code vs exact partial evaluation",
     ),
@@ -86,7 +86,7 @@ CHECKS = {
     ),
     "C14": (
         "model_checking",
-        "Explicit-state breadth-first search with stateright over the real Instance: from each of 14 initial instances (3 constraint-function sets with 3-4 constraints, 0/1/2/all initially removed, two more in which a variable that a constraint mentions carries a fixed value; thorough adds a 5-constraint set: 2.0e5 states, 5.9e6 transitions) every action relax(id, reason in {a, empty string}, params in {none,{k:v}}) / relax(id, a reason with leading and trailing whitespace) / restore(id) for every constraint id and the unknown id 99. The instance message is the whole state (dedup key = message bytes + reference model), so every history of any length is covered, not only length <= 8. Every transition is compared with a two-set reference model (op on an id not in the expected list must fail and leave the instance equal to its clone); every reachable state is checked: multiset of (id, function, equality, metadata) over active+removed unchanged, ids partitioned, recorded reasons/parameters, and on all 27 grid states per-constraint values and feasible equal the initial instance's while feasible_relaxed follows the currently active constraints; three incomplete states (each variable omitted) are accepted or rejected exactly as by the initial instance; evaluate_samples over all grid states reports the same two flags per sample and rejects the incomplete states evaluate rejects.",
+        "Explicit-state breadth-first search with stateright over the real Instance: from each of 14 initial instances (3 constraint-function sets with 3-4 constraints, 0/1/2/all initially removed, two more in which a variable that a constraint mentions carries a fixed value; thorough adds a 5-constraint set: 2.0e5 states, 5.9e6 transitions) every action relax(id, reason in {a, empty string}, params in {none,{k:v}}) / relax(id, a reason with leading and trailing whitespace) / restore(id) for every constraint id and the unknown id 99. The instance message is the whole state (dedup key = message bytes + reference model), so every history of any length is covered, not only length <= 8. Every transition is compared with a two-set reference model (op on an id not in the expected list must fail and leave the instance equal to its clone); every reachable state is checked: multiset of (id, function, equality, metadata) over active+removed unchanged, ids partitioned, recorded reasons/parameters, and on all 27 grid states per-constraint values and feasible equal the initial instance's while feasible_relaxed follows the currently active constraints; three incomplete states (each variable omitted) are accepted or rejected exactly as by the initial instance; evaluate_samples over all grid states reports the same two flags per sample (also through feasible_ids()) and rejects the incomplete states evaluate rejects.",
         "stateright 0.31 BFS; violations are collected through a side channel so exploration continues and every signature is reported; replay re-executes the recorded history without the explorer.",
         "explicit-state model checking (stateright BFS) of the real code with a reference model in lock-step",
     ),
@@ -122,7 +122,7 @@ CHECKS = {
     ),
     "C19": (
         "model_checking",
-        "Abstract QP models for EACH of the 120 problem-type codes (objective L/D/C/Q x variables C/B/M/I/G x constraints N/B/L/D/C/Q) x sizes up to n=5, m=4 (incl. m=0 under every constraint kind) x a deterministic sweep (210 quick / 840 thorough per code and size) that visits every value of every content dimension: Q0 diagonal / off-diagonal patterns, default b0 with non-defaults incl. an explicit zero, q0, per-constraint Qi / bi (constraints without linear entries: none / the last / the first / all), constraint sides finite / exactly at the infinity value / beyond it / equal, variable bounds likewise, variable types, names, infinity value 1e20 or 50, sense; 5 layouts (comment lines with ! # %, also indented, trailing text also after names, blank lines, trailing text after values, lower-case keywords, sparse sections in ascending or descending index order). Rendered by the harness's own QPLIB writer, loaded with qplib::load_file or qplib::load_file_bytes + decode. Expected problem from the model: objective 1/2 x'Q0x + b0'x + q0 assembled from the lower triangle (diagonal entry v -> v/2 x_i^2), one <=0 constraint per finite side with the right signs, unique constraint ids, variable kinds/bounds/names. Fault files on 6 representative codes x 2 layouts: each type-code character invalid, too short, invalid sense, every count non-numeric / negative / fractional, every number and entry value / index unparsable, and truncation after EVERY line => Err whose message carries the line number of the fault.",
+        "Abstract QP models for EACH of the 120 problem-type codes (objective L/D/C/Q x variables C/B/M/I/G x constraints N/B/L/D/C/Q) x sizes up to n=5, m=4 (incl. m=0 under every constraint kind) x a deterministic sweep (210 quick / 840 thorough per code and size) that visits every value of every content dimension: Q0 diagonal / off-diagonal patterns, default b0 with non-defaults incl. an explicit zero, q0, per-constraint Qi / bi (constraints without linear entries: none / the last / the first / all), constraint sides finite / exactly at the infinity value / beyond it (also with the wrong sign) / equal, variable bounds likewise, variable types, names, infinity value 1e20 or 50, sense; 5 layouts (comment lines with ! # %, also indented, trailing text also after names, blank lines, trailing text after values, lower-case keywords, sparse sections in ascending or descending index order). Rendered by the harness's own QPLIB writer, loaded with qplib::load_file or qplib::load_file_bytes + decode. Expected problem from the model: objective 1/2 x'Q0x + b0'x + q0 assembled from the lower triangle (diagonal entry v -> v/2 x_i^2), one <=0 constraint per finite side with the right signs, unique constraint ids, variable kinds/bounds/names. Fault files on 6 representative codes x 2 layouts: each type-code character invalid, too short, invalid sense, every count non-numeric / negative / fractional, every number and entry value / index unparsable, and truncation after EVERY line => Err whose message carries the line number of the fault.",
         "Format assumption: the two trailing name sections are always written. Outside the alphabet: out-of-range indices, upper-triangle or repeated entries.",
         "bounded exhaustive enumeration of type codes x content sweep rendered by an independent writer; fault enumeration incl. every truncation point",
     ),
